@@ -33,7 +33,7 @@ def signature(draw, scope, free_p=0.12, max_params=4, posonly=True, default_p=0.
 
 @st.composite
 def config(draw, max_levels=1, max_mws=4, posonly=True, nonunique=True, nonreorderable=False, free_p=0.12,
-           all_kinds=True, perturb=True, renderless_ctx=False):
+           all_kinds=True, perturb=True, renderless_ctx=False, route_dups=False):
     nlevels = draw(st.integers(1, max_levels))
     pool = list(NAMES)
     roles = {}
@@ -63,11 +63,17 @@ def config(draw, max_levels=1, max_mws=4, posonly=True, nonunique=True, nonreord
     slots = []  # (container, mw)
     tids_ok = [t for t, (u, r) in TYPES.items() if (nonunique or u) and (nonreorderable or r)]
     remaining = list(prov_names)
+    # (route_dups) one configuration in four keeps all its middlewares on the Route: an application without middlewares of its
+    # own still has to merge - and de-duplicate - the Route's list
+    route_heavy = route_dups and draw(st.integers(0, 3)) == 0
     for j in range(nm):
-        where = draw(st.sampled_from(['L0', 'L0', 'R'] + (['inner'] if nlevels > 1 else [])))
+        where = 'R' if route_heavy else draw(st.sampled_from(['L0', 'L0', 'R'] + (['inner'] if nlevels > 1 else [])))
         cont = levels[0] if where == 'L0' else route if where == 'R' else levels[draw(st.integers(1, nlevels - 1))]
         tid = draw(st.sampled_from(tids_ok))
-        if TYPES[tid][0] and any(m['tid'] == tid for m in cont['mws']):
+        if TYPES[tid][0] and any(m['tid'] == tid for m in cont['mws']) and \
+                not (route_dups and where == 'R' and draw(st.integers(0, 1)) == 0):
+            # (route_dups: a Route's own list may name one unique type twice - the merge keeps it once, at its first position,
+            # or refuses a non-reorderable one; an Application's own list is checked as given, so no duplicates there)
             free = [t for t in tids_ok if not any(m['tid'] == t for m in cont['mws'])]
             if not free:
                 continue
